@@ -2,6 +2,7 @@ import FqModel.Cli
 import Proofs.C17Parse
 import Proofs.C17Loop
 import Proofs.C17Opts
+import Proofs.C17Raw
 /-!
   C17 — command line contract: property theorems about the model FqModel/Cli.lean
   (`argsParse` = args.jq `_args_parse`, `exitCode` = the `_fatal_error`/`_finally` mapping,
@@ -35,6 +36,21 @@ import Proofs.C17Opts
                                        the default mode feeds one by one
                `raw_input_lines`, `raw_input_lossless`, `raw_input_agrees_with_jq` (full);
                `raw_input_old_empty_witness`   documentation: before commit c7862ea9 an empty input was one empty line
+   raw input   over ANY alphabet (the correspondence run uses bytes), for every input text:
+   (bytes)     `raw_lines_join`        the values of -R joined with \n (+ the text's final \n) are the string of -Rs
+               `raw_lines_no_separator`, `raw_lines_drop_only_separators`, `raw_lines_bytes_accounted`, `raw_lines_keep_other`
+                                       no byte other than a separating \n is dropped or added, order kept; \r is content
+               `raw_lines_count`, `raw_lines_across_files`
+               `raw_judge_iff`         the judgement the driver evaluates on observations holds for jq's lines and no others
+               `rawLines_eq_generic`   the code point model above is the `Char` instance
+               `raw_crlf_variant_false`   the variant that strips \r from every line (seeded change S5-C17-2) is refuted
+   open        `open_directory_is_error`, `open_nonregular_ignores_seek`, `open_error_iff`, `open_ghost_iff`
+                                       binary.go `_open` on what os.Open / Stat / Seek / ReadAll report about a path
+               `open_seeded_directory_ghost`   a directory on ext4 (SEEK_END = 2^63-1): error in the code, ghost in S5-C17-1
+               `open_never_ghost`, `open_zero_size_regular_is_read`   since /repo 013f25c7 a zero-size regular file is read
+               `loopO_no_ghost`, `ghost_input_is_absent`, `input_processed_or_reported_partial`,
+               `open_ghost_iff_old`, `ghost_input_silently_dropped_old`   documentation: finding procfs-input-silently-dropped
+                                       (fixed): before 013f25c7 `fq . /proc/version` printed nothing, reported nothing, status 0
    options     `repeated_value_flag_later_wins`, `value_flags_commute`, `value_flag_bool_flag_commute`   -d a … -d b: later wins
                `array_flag_accumulates`, `pairs_flag_accumulates`   -L and the named-argument flags keep every occurrence, in order
                `option_flag_later_wins`, `option_flags_commute`     -o k=v1 … -o k=v2: later wins; different keys commute
@@ -48,7 +64,7 @@ import Proofs.C17Opts
    named args  `named_arg_later_wins`, `named_arg_kind_precedence`, `decode_file_failure_is_args_error`
 -/
 namespace Props.C17
-open FqModel.Cli Proofs.C17Parse Proofs.C17Loop Proofs.C17Opts
+open FqModel.Cli Proofs.C17Parse Proofs.C17Loop Proofs.C17Opts Proofs.C17Raw
 
 /-! ## a small table for the non-vacuity examples (entries copied from options.jq) -/
 
@@ -699,6 +715,152 @@ theorem inputs_independent_old_false :
 example : (runFiles sampleEnv [S "missing", S "obj"]).out = [2, 2] ∧ (loopOld sampleEnv (· + 100) [S "missing", S "obj"] [] {}).out = [102, 102] := by
   decide
 
+/-! ## `open` on a real file system, and the input loop with all three outcomes of `open`
+
+  `openModel` = binary.go `_open` on what os.Open / Stat / Seek / ReadAll report (measured by the harness on a real
+  directory tree); `loopO` = the loop of init.jq:20-59 including the case that `open` returns a binary which cannot be
+  used (`.opened == null` is then true although nothing was raised). -/
+
+/-- a directory argument is a FILE ERROR, whatever its file descriptor answers to Seek: it is not regular, so it is read, and
+    reading a directory fails -/
+theorem open_directory_is_error (f : OsFile) (ho : f.opens = true) (hr : f.regular = false) (hd : f.readAll = none) :
+    openModel f = .err := by
+  simp [openModel, ho, hr, hd]
+
+/-- exactly which paths `open` refuses: those os.Open refuses, and those that are read into memory (not regular, or size
+    zero, or not a ReadSeeker) and cannot be read -/
+theorem open_error_iff (f : OsFile) :
+    openModel f = .err ↔
+      f.opens = false ∨ ((f.regular && decide (0 < f.statSize) && f.seekable) = false ∧ f.readAll = none) := by
+  unfold openModel
+  cases h1 : f.opens <;> cases h2 : (f.regular && decide (0 < f.statSize) && f.seekable) <;> cases h3 : f.readAll <;>
+    cases h4 : f.seekEnd <;> simp
+
+/-- the size a NON-regular file claims through Seek is never asked for (the seeded change S5-C17-1 asks) -/
+theorem open_nonregular_ignores_seek (f : OsFile) (e : Option Nat) (hr : f.regular = false) :
+    openModel { f with seekEnd := e } = openModel f := by
+  simp [openModel, hr]
+
+/-- exactly which paths would be ghosts: regular by Stat with a POSITIVE size, a ReadSeeker, and Seek(0, SeekEnd) fails -/
+theorem open_ghost_iff (f : OsFile) :
+    openModel f = .ghost ↔ f.opens = true ∧ f.regular = true ∧ 0 < f.statSize ∧ f.seekable = true ∧ f.seekEnd = none := by
+  unfold openModel
+  cases h1 : f.opens <;> cases h2 : f.regular <;> cases h3 : f.seekable <;> cases h4 : f.readAll <;> cases h5 : f.seekEnd <;>
+    by_cases h6 : 0 < f.statSize <;> simp [h6]
+
+/-- … so under the one fact about operating systems that the code relies on — a regular file that reports a positive size
+    answers Seek(0, SeekEnd) — `open` is never a ghost: it raises or returns a usable binary -/
+theorem open_never_ghost (f : OsFile) (hos : f.regular = true → 0 < f.statSize → f.seekEnd.isSome = true) :
+    openModel f ≠ .ghost := by
+  intro h
+  obtain ⟨_, h2, h3, _, h5⟩ := (open_ghost_iff f).mp h
+  have := hos h2 h3
+  simp [h5] at this
+
+/-- a regular file that reports size zero (an empty file, a procfs file) is READ, whatever it answers to Seek -/
+theorem open_zero_size_regular_is_read (f : OsFile) (ho : f.opens = true) (hz : f.statSize = 0) (n : Nat) (hr : f.readAll = some n) :
+    openModel f = .file n := by
+  simp [openModel, ho, hz, hr]
+
+/-- finding `procfs-input-silently-dropped` (fixed in /repo by 013f25c7): before, exactly the regular ReadSeekers that refuse
+    SEEK_END were ghosts, among them the seq files of procfs, whose stat size is 0 -/
+theorem open_ghost_iff_old (f : OsFile) :
+    openModelOld f = .ghost ↔ f.opens = true ∧ f.regular = true ∧ f.seekable = true ∧ f.seekEnd = none := by
+  unfold openModelOld
+  cases h1 : f.opens <;> cases h2 : f.regular <;> cases h3 : f.seekable <;> cases h4 : f.readAll <;> cases h5 : f.seekEnd <;> simp
+
+/-- the file kinds of the real-file-system family on the model; the seeded variant S5-C17-1 turns a directory (ext4:
+    SEEK_END = 2^63-1) into a ghost, i.e. into an input that is skipped without a word -/
+theorem open_seeded_directory_ghost :
+    openModel osDirExt4 = .err ∧ openSeeded osDirExt4 = .ghost ∧
+    openModel osDevNull = .file 0 ∧ openSeeded osDevNull = .file 0 ∧
+    openModel osNoOpen = .err ∧ openSeeded osNoOpen = .err ∧
+    openModelOld osProcSeq = .ghost ∧ openModel osProcSeq = .file 123 ∧ openSeeded osProcSeq = .file 123 ∧
+    kindAgrees .dir osDirExt4 = true ∧ kindAgrees .empty osDevNull = true ∧ kindAgrees .undec osProcSeq = true ∧
+    kindAgrees .jobj osDirExt4 = false := by
+  decide
+
+section loopO
+variable {C V Out : Type}
+
+/-- without ghosts `loopO` is `loop`: every theorem of the section above applies -/
+theorem loopO_no_ghost (env : EnvO C V Out) (fs : List Str) (st : St Out) (h : ∀ f ∈ fs, env.openO f ≠ .ghost) :
+    loopO env fs st = loop env.toEnv fs st := by
+  induction fs generalizing st with
+  | nil => rfl
+  | cons f t ih =>
+    have ht : ∀ x ∈ t, env.openO x ≠ .ghost := fun x hx => h x (by simp [hx])
+    have hf := h f (by simp)
+    cases ho : env.openO f with
+    | err =>
+      have hopen : env.toEnv.openF f = none := by simp [EnvO.toEnv, ho]
+      simp only [loopO, loop, ho, hopen]
+      exact ih _ ht
+    | ghost => exact absurd ho hf
+    | ok c =>
+      have hopen : env.toEnv.openF f = some c := by simp [EnvO.toEnv, ho]
+      have hdec : env.toEnv.decode = env.decode := rfl
+      simp only [loopO, loop, ho, hopen, hdec]
+      cases env.decode c with
+      | none => exact ih _ ht
+      | some v => exact ih _ ht
+
+/-- ghost_input_is_absent: an input whose `open` is a ghost would leave NO trace — output, stderr, remembered classes and
+    hence the exit status are those of the command line without it -/
+theorem ghost_input_is_absent (env : EnvO C V Out) (pre post : List Str) (g : Str) (hg : env.openO g = .ghost) (st : St Out) :
+    loopO env (pre ++ g :: post) st = loopO env (pre ++ post) st := by
+  induction pre generalizing st with
+  | nil => simp [loopO, hg]
+  | cons f t ih =>
+    cases ho : env.openO f with
+    | err => simp only [List.cons_append, loopO, ho]; exact ih _
+    | ghost => simp only [List.cons_append, loopO, ho]; exact ih _
+    | ok c =>
+      simp only [List.cons_append, loopO, ho]
+      cases env.decode c with
+      | none => exact ih _
+      | some v => exact ih _
+
+/-- NEGATION WITNESS of "every input is processed or reported" for the code BEFORE /repo commit 013f25c7 (finding
+    `procfs-input-silently-dropped`, fixed): a ghost input alone gives no output, no report and status 0 — then
+    `fq . /proc/version` (`open_seeded_directory_ghost`: `openModelOld osProcSeq = .ghost`); and what the seeded change
+    S5-C17-1 makes of a directory -/
+theorem ghost_input_silently_dropped_old (env : EnvO C V Out) (g : Str) (hg : env.openO g = .ghost) (c : Codes) :
+    (loopO env [g] {}).out = [] ∧ (loopO env [g] {}).errs = [] ∧ (loopO env [g] {}).exit c = 0 := by
+  simp [loopO, hg, St.exit, finallyExit]
+
+/-- input_processed_or_reported for the loop with all outcomes of `open` — PARTIAL: only for inputs that are not ghosts.
+    FULL statement: the same without `hng`.  What is missing is not in fq's code but a fact about operating systems: that a
+    regular file reporting a positive size answers Seek(0, SeekEnd) — under it `open` is never a ghost (`open_never_ghost`) and
+    this theorem is `input_processed_or_reported` (`loopO_no_ghost`).  The init.jq loop itself still skips a ghost silently
+    (`ghost_input_silently_dropped_old`); since 013f25c7 `_open` no longer produces one for any file known to the harness. -/
+theorem input_processed_or_reported_partial (env : EnvO C V Out) (f : Str) (hng : env.openO f ≠ .ghost) :
+    ((loopO env [f] {}).errs = [.io f] ∧ (loopO env [f] {}).io = true) ∨
+    ((loopO env [f] {}).errs = [.dec f] ∧ (loopO env [f] {}).dec = true) ∨
+    (∃ c v, env.openO f = .ok c ∧ env.decode c = some v ∧ (loopO env [f] {}).out = (env.eval v).1 ∧
+      (loopO env [f] {}).expr = (env.eval v).2) := by
+  simp only [loopO]
+  cases ho : env.openO f with
+  | err => left; simp
+  | ghost => exact absurd ho hng
+  | ok c =>
+    cases hd : env.decode c with
+    | none => right; left; simp [hd]
+    | some v => right; right; exact ⟨c, v, rfl, hd, by simp [hd, evalOne, EnvO.toEnv], by simp [hd, evalOne, EnvO.toEnv]⟩
+
+/-- non-vacuity: an environment with an unopenable path, a ghost and a good file -/
+def sampleEnvO : EnvO Nat Nat Nat :=
+  { openO := fun n => if n = S "miss" then .err else if n = S "ghost" then .ghost else .ok 1,
+    decode := fun c => some c, eval := fun v => ([v], false) }
+
+example : sampleEnvO.openO (S "ghost") = .ghost ∧ sampleEnvO.openO (S "a") ≠ .ghost ∧
+    (loopO sampleEnvO [S "a", S "ghost", S "miss"] {}).out = [1] ∧
+    (loopO sampleEnvO [S "a", S "ghost", S "miss"] {}).errs = [.io (S "miss")] ∧
+    (loopO sampleEnvO [S "ghost"] {}).errs = [] := by
+  refine ⟨by simp [sampleEnvO, S], by simp [sampleEnvO, S], by decide, by decide, by decide⟩
+
+end loopO
+
 /-! ## raw input (`-R`) -/
 
 /-- raw_input_lines: the inputs of raw-input mode are the newline-free pieces of the concatenated texts … -/
@@ -727,6 +889,149 @@ theorem raw_input_old_empty_witness : rawLinesOld [[]] = [[]] ∧ jqRawLines [[]
 example : rawLines [S "a\nb", S "c\n"] = [S "a", S "bc"] ∧ rawLines [S "x\n\n"] = [S "x", S ""] ∧ rawLines [] = [] ∧
     rawLines [S "\n"] = [S ""] := by decide
 
+
+/-! ### raw input over any alphabet (bytes in the correspondence run): `-R` against `-Rs`, for EVERY input text
+
+  `rawLinesG nl chunks` = the values of `fq -R` (init.jq:81-99), `rawSlurpG chunks` = the one value of `fq -Rs` (:73-80) on
+  the same inputs.  jq: the text is cut at `\n` and nowhere else, a last line without `\n` counts, the values joined with
+  `\n` (plus the final `\n` the text may end with) are the text.  Nothing here knows about `\r`, NUL or UTF-8: they are
+  content. -/
+
+section RawG
+variable {α : Type} [DecidableEq α]
+
+/-- raw_lines_join: for every input the values of `-R`, joined, reproduce the string of `-Rs` -/
+theorem raw_lines_join (nl : α) (chunks : List (List α)) :
+    rawJoin nl (rawSlurpG chunks) (rawLinesG nl chunks) = rawSlurpG chunks := by
+  unfold rawJoin rawSlurpG rawLinesG
+  by_cases h : chunks.flatten = []
+  · simp [h, endsSep_nil, List.intercalate]
+  · simp only [isEmpty_false_of_ne h]
+    rw [if_neg (by simp), intercalate_splitSep]
+    exact rtrimSep_append nl _
+
+/-- no value contains the separator -/
+theorem raw_lines_no_separator (nl : α) (chunks : List (List α)) : ∀ l ∈ rawLinesG nl chunks, nl ∉ l := by
+  unfold rawLinesG
+  split
+  · simp
+  · exact splitSep_no_sep nl _
+
+/-- no byte other than a separating `\n` is dropped, none is added, the order is kept: the values concatenated are the
+    text without its `\n`s -/
+theorem raw_lines_drop_only_separators (nl : α) (chunks : List (List α)) :
+    (rawLinesG nl chunks).flatten = (rawSlurpG chunks).filter (fun c => decide (c ≠ nl)) := by
+  unfold rawLinesG rawSlurpG
+  by_cases h : chunks.flatten = []
+  · simp [h]
+  · simp only [isEmpty_false_of_ne h]
+    rw [if_neg (by simp), flatten_splitSep, filter_rtrimSep]
+
+/-- … in numbers: the bytes of the values plus the `\n`s of the text are all the bytes of the text -/
+theorem raw_lines_bytes_accounted (nl : α) (chunks : List (List α)) :
+    (rawLinesG nl chunks).flatten.length + (rawSlurpG chunks).count nl = (rawSlurpG chunks).length := by
+  rw [raw_lines_drop_only_separators]
+  have h := List.length_eq_countP_add_countP (fun c => decide (c ≠ nl)) (l := rawSlurpG chunks)
+  rw [List.countP_eq_length_filter] at h
+  have h2 : List.countP (fun a => decide ¬(decide (a ≠ nl)) = true) (rawSlurpG chunks) = (rawSlurpG chunks).count nl := by
+    rw [List.count_eq_countP]
+    congr 1
+    funext a
+    by_cases ha : a = nl <;> simp [ha]
+  omega
+
+/-- every byte value other than the separator occurs in the values exactly as often as in the text: `\r` is kept -/
+theorem raw_lines_keep_other (nl c : α) (hc : c ≠ nl) (chunks : List (List α)) :
+    (rawLinesG nl chunks).flatten.count c = (rawSlurpG chunks).count c := by
+  rw [raw_lines_drop_only_separators]
+  exact List.count_filter (by simp [hc])
+
+/-- the number of values: one per `\n`, plus one for a last line that has no `\n` -/
+theorem raw_lines_count (nl : α) (chunks : List (List α)) :
+    (rawLinesG nl chunks).length + (if endsSep nl (rawSlurpG chunks) then 1 else 0) =
+      (rawSlurpG chunks).count nl + (if rawSlurpG chunks = [] then 0 else 1) := by
+  unfold rawLinesG rawSlurpG
+  by_cases h : chunks.flatten = []
+  · simp [h, endsSep_nil]
+  · simp only [isEmpty_false_of_ne h]
+    rw [if_neg (by simp), if_neg h, length_splitSep]
+    have := count_rtrimSep nl chunks.flatten
+    omega
+
+/-- lines continue across file boundaries (jq: `a\nb` + `c\n` gives "a", "bc"): only the concatenation matters -/
+theorem raw_lines_across_files (nl : α) (a b : List α) (rest : List (List α)) :
+    rawLinesG nl (a :: b :: rest) = rawLinesG nl ((a ++ b) :: rest) := by
+  simp [rawLinesG]
+
+/-- the judgement the driver evaluates on the observed values of `-R` and the observed string of `-Rs` is satisfied by
+    exactly one list of values: jq's.  (So a `raw` case line is OK iff fq printed what jq prints.) -/
+theorem raw_judge_iff (nl : α) (text : List α) (ls : List (List α)) :
+    rawJudge nl text ls = true ↔ ls = rawLinesG nl [text] := by
+  constructor
+  · intro hj
+    simp only [rawJudge, Bool.and_eq_true, List.all_eq_true, Bool.not_eq_true', decide_eq_true_eq, beq_iff_eq] at hj
+    obtain ⟨⟨hno, hjoin⟩, hemp⟩ := hj
+    have hno' : ∀ l ∈ ls, nl ∉ l := fun l hl => by
+      have := hno l hl
+      simpa using this
+    unfold rawLinesG
+    by_cases ht : text = []
+    · subst ht
+      have : ls = [] := by cases ls <;> simp_all
+      simp [this]
+    · have hls : ls ≠ [] := by
+        intro e; subst e; simp at hemp; exact ht hemp
+      have hflat : [text].flatten = text := by simp
+      rw [hflat, isEmpty_false_of_ne ht, if_neg (by simp)]
+      unfold rawJoin at hjoin
+      have h2 := rtrimSep_append nl text
+      have h3 : [nl].intercalate ls = rtrimSep nl text := by
+        have : [nl].intercalate ls ++ (if endsSep nl text then [nl] else []) =
+            rtrimSep nl text ++ (if endsSep nl text then [nl] else []) := by rw [hjoin, h2]
+        exact List.append_cancel_right this
+      rw [← h3, splitSep_intercalate nl ls hls hno']
+  · intro e
+    subst e
+    have h1 := raw_lines_no_separator nl [text]
+    have h2 := raw_lines_join nl [text]
+    have hflat : rawSlurpG [text] = text := by simp [rawSlurpG]
+    rw [hflat] at h2
+    simp only [rawJudge, Bool.and_eq_true, List.all_eq_true, Bool.not_eq_true', decide_eq_true_eq, beq_iff_eq]
+    refine ⟨⟨fun l hl => by simpa using h1 l hl, h2⟩, ?_⟩
+    unfold rawLinesG
+    by_cases ht : text = []
+    · simp [ht]
+    · have hflat : [text].flatten = text := by simp
+      rw [hflat, isEmpty_false_of_ne ht, if_neg (by simp)]
+      have := splitSep_ne_nil nl (rtrimSep nl text)
+      cases hs : splitSep nl (rtrimSep nl text) <;> simp_all
+
+end RawG
+
+/-- `rawLines` (code points, `'\n'`) is the `Char` instance of the generic splitter -/
+theorem rawLines_eq_generic (chunks : List Str) : rawLines chunks = rawLinesG '\n' chunks := by
+  unfold rawLines rawLinesG
+  rw [splitNl_eq, rtrimNl_eq]
+
+/-- the seeded variant S5-C17-2 (`map(rtrimstr("\r"))`: "lines can end with \n or \r\n") violates `raw_lines_join`, is
+    rejected by the judgement, and loses a byte: on the DOS text `a\r\nb\r\n` it yields "a", "b" where jq yields "a\r", "b\r";
+    also a lone `\r` at the end of a last line without `\n` is lost -/
+theorem raw_crlf_variant_false :
+    rawJoin '\n' (rawSlurpG [S "a\r\nb\r\n"]) (rawLinesCRLF '\n' '\r' [S "a\r\nb\r\n"]) ≠ rawSlurpG [S "a\r\nb\r\n"] ∧
+    rawJudge '\n' (S "a\r\nb\r\n") (rawLinesCRLF '\n' '\r' [S "a\r\nb\r\n"]) = false ∧
+    rawJudge '\n' (S "a\r\nb\r\n") (rawLinesG '\n' [S "a\r\nb\r\n"]) = true ∧
+    rawLinesCRLF '\n' '\r' [S "x\r"] = [S "x"] ∧ rawLinesG '\n' [S "x\r"] = [S "x\r"] ∧
+    (rawLinesCRLF '\n' '\r' [S "a\r\nb\r\n"]).flatten.count '\r' = 0 ∧ (rawSlurpG [S "a\r\nb\r\n"]).count '\r' = 2 := by
+  decide
+
+/-- the inputs the correspondence run generates, on the model: `\r\n`, lone `\r`, empty lines, no trailing newline, NUL,
+    a line that continues in the next file, U+2028 -/
+example : rawLinesG '\n' [S "a\r\nb\r\n"] = [S "a\r", S "b\r"] ∧ rawLinesG '\n' [S "\r"] = [S "\r"] ∧
+    rawLinesG '\n' [S "\n\n"] = [S "", S ""] ∧ rawLinesG '\n' [S "a\n\nb"] = [S "a", S "", S "b"] ∧
+    rawLinesG '\n' [S "a\r", S "\nb"] = [S "a\r", S "b"] ∧ rawLinesG '\n' [S "\x00\n\x00"] = [S "\x00", S "\x00"] ∧
+    rawLinesG '\n' [S "a b\n"] = [S "a b"] ∧ rawLinesG '\n' [S "", S ""] = [] ∧ rawSlurpG [S "", S ""] = S "" ∧
+    rawLinesG (10 : Nat) [[0xff, 13, 10, 0xc3], [0xa9, 10, 10]] = [[0xff, 13], [0xc3, 0xa9], []] := by
+  decide
 
 /-! ## repeated options, `-o key=value`, the order in which the sources of an option's value override each other -/
 
